@@ -55,6 +55,46 @@ def lenMsg (compress : Bool) (start : Nat) (items : List String) : String := Id.
       | none => return "bad-op"
   return toString off
 
+/-- a record for the Truncate model: its Len items (gap / name) -/
+abbrev RecItems := List String
+
+/-- `r.len(l, compression)` from items -/
+def itemsLen (c : Option (List Bytes)) (off : Nat) (items : RecItems) : Nat × Option (List Bytes) := Id.run do
+  let mut o := off
+  let mut c := c
+  for it in items do
+    if it.startsWith "gap:" then
+      o := o + ((it.drop 4).toString.toNat?.getD 0)
+    else
+      match unhex (it.drop 3).toString with
+      | some s =>
+        let (l, c') := domainNameLen s o c (it.startsWith "n1:")
+        o := o + l
+        c := c'
+      | none => pure ()
+  return (o - off, c)
+
+/-- `trunc <size> <tc> <ulen> <optLen or -> Q* | A* | N* | E*` where each record is `items,items,...` and sections are
+    separated by `|`; output: kept counts, TC, compress -/
+def truncOp (args : List String) : String :=
+  match args with
+  | size :: tcFlag :: ulen :: optLen :: rest =>
+    match size.toInt?, ulen.toNat? with
+    | some size, some ulen =>
+      let secs := (" ".intercalate rest).splitOn "|"
+      let parse (s : String) : List RecItems :=
+        ((s.trimAscii.toString.splitOn " ").filter (· ≠ "")).map fun r => (r.splitOn ",").filter (· ≠ "")
+      match secs with
+      | [q, a, n, e] =>
+        let m : TMsg RecItems := ⟨parse q, parse a, parse n, parse e,
+          (if optLen == "-" then none else some []), tcFlag == "1", false⟩
+        let lenf := fun (c : Option (List Bytes)) (off : Nat) (r : RecItems) => itemsLen c off r
+        let m' := truncate lenf (some []) ulen (optLen.toNat?.getD 0) size m
+        s!"{m'.answer.length} {m'.ns.length} {m'.extra.length} {showB m'.truncated} {showB m'.compress}"
+      | _ => "bad-op"
+    | _, _ => "bad-op"
+  | _ => "bad-op"
+
 /-- one operation: op name and arguments → one canonical output line -/
 def runOp (op : String) (args : List String) : String :=
   match op, args with
@@ -131,6 +171,7 @@ def runOp (op : String) (args : List String) : String :=
   | "len.msg", cm :: st :: items => match st.toNat? with
     | some st => lenMsg (cm == "1") st items
     | none => "bad-op"
+  | "trunc", args => truncOp args
   | "lab.count", [t] => match unhex t with
     | some s => toString (countLabel s) | _ => "bad-op"
   | "lab.split", [t] => match unhex t with
